@@ -61,6 +61,17 @@ def WX(v):
     raise TypeError(repr(v))
 
 
+def WXA(v):
+    """abstract speed argument -> wire xarg: (0 pynum) for int / bool / finite float / None, (1 xfloat) for an IEEE special"""
+    if isinstance(v, float):
+        return [1, WX(v)]
+    return [0, W(v)]
+
+
+def is_special(v):
+    return isinstance(v, float)
+
+
 def m_x(w):
     """wire xfloat -> normal form shared with i_val"""
     if w[0] == 0:
